@@ -12,6 +12,7 @@ import QmiModel.Props.C11
 #print axioms QmiModel.C11.no_deadlock
 #print axioms QmiModel.C11.wait_after_stop_does_not_park
 #print axioms QmiModel.C11.released_with_stop_exception
+#print axioms QmiModel.C11.released_reaches_stop_exception
 #print axioms QmiModel.C11.sleep_interruptible
 #print axioms QmiModel.C11.loop_task_finalises
 #print axioms QmiModel.C11.lookup_before_flag_loses_wakeup
